@@ -117,6 +117,11 @@ def fixed_inputs():
         out.append("CLASS EXPRESSION (" + " + ".join(["[a]"] * n) + " > 1) END")
         out.append("CLASS EXPRESSION (" + "NOT " * n + "[a] = 1) END")
         out.append("CLASS EXPRESSION (" + "-" * n + "[a] > 1) END")
+        # nesting that builds several tree levels per pair of parentheses (sum, negation, group; function call, group)
+        out.append("CLASS EXPRESSION (" + "1 + -(" * n + "1" + ")" * n + " > 0) END")
+        out.append("CLASS EXPRESSION (" + "round((" * n + "[a]" + ",1))" * n + " > 0) END")
+        out.append("CLASS EXPRESSION (" + "NOT (" * n + "[a] = 1" + ")" * n + ") END")
+        out.append("LAYER FILTER (" + "([a] = 1 AND " * n + "[b] = 2" + ")" * n + ") END")
     for n in (1, 5, 20, 50):
         out.append("CLASS " * n + "END " * n)
         out.append("MAP " + "LAYER CLASS STYLE " * (n // 3) + "END " * (3 * (n // 3)) + "END")
